@@ -51,21 +51,25 @@ def strategy_impl(draw, tier):
             keep = draw(st.sampled_from([True, False, False]))
         if not keep:
             continue
-        options = []
-        for a in s:
-            if apos[a] == "center":
-                options.append(by[a]["positions"])
-            else:
-                options.append(sorted({apos[a], "center"}, key=by[a]["positions"].index))
-        combos = [list(c) for c in itertools.product(*options)]
-        k = draw(st.integers(1, min(3, len(combos))))
-        chosen = draw(st.lists(st.sampled_from(combos), min_size=k, max_size=k, unique_by=tuple))
+        def opts(a):
+            return by[a]["positions"] if apos[a] == "center" else sorted({apos[a], "center"}, key=by[a]["positions"].index)
+
+        k = draw(st.integers(1, 3))
         entries = []
-        for pos in chosen:
+        seen = set()
+        for _ in range(k):
+            # a metric for the axes `s` may vary along further axes as well (e.g. dx(y, x) registered for ('X',))
+            others = [a for a in names if a not in s and draw(st.sampled_from([False, False, True]))]
+            on = list(s) + others
+            pos = [draw(st.sampled_from(opts(a))) for a in on]
+            key = frozenset(zip(on, pos))
+            if key in seen:
+                continue
+            seen.add(key)
             counter += 1
-            shape = [gen.pos_len(by[a]["n"], p) for a, p in zip(s, pos)]
+            shape = [gen.pos_len(by[a]["n"], p) for a, p in zip(on, pos)]
             vals = draw(gen.data_values(shape, elements=st.integers(1, 31).map(lambda q: q / 8.0)))
-            entries.append({"name": f"m{counter}", "pos": pos, "values": vals, "offset": 4.0 * counter})
+            entries.append({"name": f"m{counter}", "on": on, "pos": pos, "values": vals, "offset": 4.0 * counter})
         registry.append({"axes": s, "vars": entries})
     extra = draw(st.sampled_from([[], [], [["t", 2]]]))
     dims = [gen.dim_name(n, apos[n]) for n in names] + [e[0] for e in extra]
@@ -158,11 +162,16 @@ def metric_array(entry):
     return np.asarray(entry["values"], dtype=np.float64) + entry["offset"]
 
 
+def on_axes(entry, block):
+    return entry.get("on") or list(block)
+
+
 def interp_to(entry, block, target_pos, by):
-    """Reference: metric interpolated axis by axis to target positions with extend."""
+    """Reference: metric interpolated axis by axis (along *every* axis on which it is not at the target position, be
+    it a requested axis or not) with nearest-value extension."""
     a = metric_array(entry)
     moved = False
-    for k, (ax, p) in enumerate(zip(block, entry["pos"])):
+    for k, (ax, p) in enumerate(zip(on_axes(entry, block), entry["pos"])):
         to = target_pos[ax]
         if p != to:
             a = M.stencil(a, k, by[ax]["n"], p, to, "interp", "extend", 0.0)
@@ -173,11 +182,14 @@ def interp_to(entry, block, target_pos, by):
 def acceptable_for_block(block_entry, target_pos, by):
     """-> (list of (array, dims), needs_interp)"""
     block = block_entry["axes"]
-    exact = [e for e in block_entry["vars"] if all(p == target_pos[a] for a, p in zip(block, e["pos"]))]
-    dims = [gen.dim_name(a, target_pos[a]) for a in block]
+    exact = [e for e in block_entry["vars"] if all(p == target_pos[a] for a, p in zip(on_axes(e, block), e["pos"]))]
+
+    def dims_of(e):
+        return [gen.dim_name(a, target_pos[a]) for a in on_axes(e, block)]
+
     if exact:
-        return [(metric_array(e), dims) for e in exact], False
-    return [(interp_to(e, block, target_pos, by)[0], dims) for e in block_entry["vars"]], True
+        return [(metric_array(e), dims_of(e)) for e in exact], False
+    return [(interp_to(e, block, target_pos, by)[0], dims_of(e)) for e in block_entry["vars"]], True
 
 
 def multiply(factors):
@@ -245,7 +257,7 @@ def check(case, ctx):
     metrics_arg = {}
     for r in case["registry"]:
         for e in r["vars"]:
-            ds[e["name"]] = xr.DataArray(metric_array(e), dims=[gen.dim_name(a, p) for a, p in zip(r["axes"], e["pos"])])
+            ds[e["name"]] = xr.DataArray(metric_array(e), dims=[gen.dim_name(a, p) for a, p in zip(on_axes(e, r["axes"]), e["pos"])])
         metrics_arg[tuple(r["axes"])] = [e["name"] for e in r["vars"]]
     grid = must_return("Grid construction", build.make_grid, ds, axes, metrics=metrics_arg, boundary=case["boundary"])
     vals = np.asarray(case["values"], dtype=np.float64).copy()
@@ -313,7 +325,8 @@ def check(case, ctx):
         to = tos[0]
         tpos = dict(apos, **{ax: to})
         block = reg1[frozenset([ax])]
-        feasible = all(p == to or p == "center" or to == "center" for e in block["vars"] for p in e["pos"])
+        feasible = all(p == to or p == "center" or to == "center" for e in block["vars"]
+                       for a2, p in zip(on_axes(e, block["axes"]), e["pos"]) if a2 == ax)
         acc_out = acceptable_metrics(case["registry"], [ax], tpos, by)[0] if feasible else []
         acc_in = acceptable_metrics(case["registry"], [ax], apos, by)[0] if feasible else []
         if acc_out and feasible:
@@ -357,4 +370,4 @@ def close(got, want, what):
 
 
 def summary(case):
-    return [{"axes": r["axes"], "vars": [[e["name"], e["pos"]] for e in r["vars"]]} for r in case["registry"]]
+    return [{"axes": r["axes"], "vars": [[e["name"], on_axes(e, r["axes"]), e["pos"]] for e in r["vars"]]} for r in case["registry"]]
